@@ -1033,7 +1033,10 @@ impl TryFrom<&mut Peekable<Lexer>> for ParserNode {
                                 if lex.at_eof() {
                                     break;
                                 }
-                                let next = lex.peek_any()?;
+                                // What cannot be lexed belongs to the next statement
+                                let Ok(next) = lex.peek_any() else {
+                                    break;
+                                };
                                 if let TokenType::Newline = next.token_type() {
                                     // consume newline
                                     lex.get_any()?;
